@@ -259,10 +259,11 @@ type c10Term struct {
 type c10Ctx struct {
 	base, vocab, lang string
 	terms             map[string]*c10Term
+	fail              *bool // set when an IRI has no spelling under the context (its scheme is a defined prefix)
 }
 
 func (c *c10Ctx) clone() *c10Ctx {
-	n := &c10Ctx{base: c.base, vocab: c.vocab, lang: c.lang, terms: map[string]*c10Term{}}
+	n := &c10Ctx{base: c.base, vocab: c.vocab, lang: c.lang, terms: map[string]*c10Term{}, fail: c.fail}
 	for k, v := range c.terms {
 		n.terms[k] = v
 	}
@@ -510,10 +511,30 @@ func (c *c10Ctx) forms(x string, vocab, docrel bool) []string {
 	return out
 }
 
+// defForm: a spelling for use inside a term definition; another term's name is not used there (the specification
+// rejects definitions which depend on each other in a cycle, and a later entry of the same context could introduce one).
+func (c *c10Ctx) defForm(r *hx.Rand, x string) string {
+	var f []string
+	for _, s := range c.forms(x, true, false) {
+		if _, isTerm := c.terms[s]; !isTerm {
+			f = append(f, s)
+		}
+	}
+	if len(f) == 0 {
+		*c.fail = true
+		return x
+	}
+	if len(f) > 1 && r.Chance(3, 4) {
+		return hx.Pick(r, f[1:])
+	}
+	return hx.Pick(r, f)
+}
+
 func (c *c10Ctx) form(r *hx.Rand, x string, vocab, docrel bool) string {
 	f := c.forms(x, vocab, docrel)
 	if len(f) == 0 {
-		return x // cannot happen for the IRIs generated: the full IRI always expands to itself; kept to fail visibly
+		*c.fail = true
+		return x
 	}
 	if len(f) > 1 && r.Chance(3, 4) {
 		return hx.Pick(r, f[1:])
@@ -534,6 +555,8 @@ type c10Writer struct {
 	v11     bool                // the document uses a 1.1-only feature
 	aliasID, aliasType string
 	noNest             bool
+	unwritable         bool
+	nonPrefix          map[string]bool // terms which json-ld-1.0 would use as prefixes and json-ld-1.1 does not
 }
 
 // newContext picks the context entries and returns the context object together with the resulting context.
@@ -633,7 +656,7 @@ func (w *c10Writer) newContext(parent *c10Ctx, nested bool) (*jv, *c10Ctx) {
 			continue
 		}
 		td := &c10Term{iri: iri}
-		idForm := c.form(r, iri, true, false)
+		idForm := c.defForm(r, iri)
 		if r.Chance(1, 2) && !strings.Contains(name, ":") {
 			if idForm == name {
 				idForm = iri
@@ -667,7 +690,7 @@ func (w *c10Writer) newContext(parent *c10Ctx, nested bool) (*jv, *c10Ctx) {
 				w.g.use("coerce-@vocab")
 			case 2:
 				td.typ = hx.Pick(r, c10Datatypes)
-				e.set("@type", jStr(c.form(r, td.typ, true, false)))
+				e.set("@type", jStr(c.defForm(r, td.typ)))
 				w.g.use("coerce-datatype")
 			case 3:
 				l := hx.Pick(r, c10Langs)
@@ -689,7 +712,7 @@ func (w *c10Writer) newContext(parent *c10Ctx, nested bool) (*jv, *c10Ctx) {
 				}
 				if r.Bool() {
 					td.typ = hx.Pick(r, []string{"@id", xsdNS + "date"})
-					e.set("@type", jStr(c.form(r, td.typ, true, false)))
+					e.set("@type", jStr(c.defForm(r, td.typ)))
 				}
 				w.g.use("container-list")
 			case 6:
@@ -788,6 +811,11 @@ func (w *c10Writer) context(parent *c10Ctx, nested bool) (*jv, *c10Ctx) {
 		savedID, savedType := w.aliasID, w.aliasType
 		o, c := w.newContext(parent, nested)
 		if len(o.keys) > 0 && w.verifyContext(o, c) && w.vocabOrderOK(o, parent, c) {
+			for n, td := range c.terms {
+				if td != nil && !td.prefixOK && !c10Keywords[td.iri] {
+					w.nonPrefix[n] = true
+				}
+			}
 			return o, c
 		}
 		w.aliasID, w.aliasType = savedID, savedType
@@ -827,6 +855,7 @@ func (w *c10Writer) keyFor(c *c10Ctx, p string, wantList bool, o *c10Obj) (strin
 		ok = append(ok, f)
 	}
 	if len(ok) == 0 {
+		*c.fail = true
 		return p, c.terms[p]
 	}
 	// prefer the spellings with a definition now and then: they exercise coercion
@@ -1100,7 +1129,7 @@ func (w *c10Writer) count(d *c10Data) {
 // document renders the whole dataset.
 func (w *c10Writer) document(d *c10Data) *jv {
 	r := w.r
-	root := &c10Ctx{base: c10Base, terms: map[string]*c10Term{}}
+	root := &c10Ctx{base: c10Base, terms: map[string]*c10Term{}, fail: &w.unwritable}
 	c := root
 	var cj *jv
 	if r.Chance(4, 5) {
@@ -1242,9 +1271,14 @@ func c10Decode(r *hx.Rand, n int, out *hx.Out, _ []string) {
 		rr := r.Fork()
 		g := &c10GenT{r: rr, feat: map[string]int{}}
 		d := g.data()
-		w := &c10Writer{g: g, r: rr, refs: map[string]int{}, gnames: map[string]bool{}, nsubj: map[string]int{}, written: map[*c10Node]bool{}}
+		w := &c10Writer{g: g, r: rr, refs: map[string]int{}, gnames: map[string]bool{}, nsubj: map[string]int{}, written: map[*c10Node]bool{}, nonPrefix: map[string]bool{}}
 		w.count(d)
 		doc := w.document(d)
+		if w.unwritable {
+			// some IRI of the data cannot be spelled under the context drawn (its scheme is a prefix there): draw again
+			cI--
+			continue
+		}
 		if rr.Bool() {
 			doc.shuffleKeys(rr)
 			g.use("shuffled-keys")
@@ -1259,7 +1293,7 @@ func c10Decode(r *hx.Rand, n int, out *hx.Out, _ []string) {
 		}
 		want := d.quads()
 		modes := []string{"", "json-ld-1.1"}
-		if !w.v11 {
+		if !w.v11 && !c10ModeSensitive(doc, w.nonPrefix) {
 			modes = append(modes, "json-ld-1.0")
 		}
 		impl, oracle := "", ""
@@ -1306,4 +1340,28 @@ func c10Decode(r *hx.Rand, n int, out *hx.Out, _ []string) {
 		out.Emit(hx.Case{Kind: "K/C10/decode/iso", Line: line, Impl: impl, Class: cls, NonTri: len(want) >= 2, Oracle: oracle, Spec: true,
 			Desc: fmt.Sprintf("base=%q features=%v document: %s", c10Base, fs, text)})
 	}
+}
+
+// c10ModeSensitive: some string or key has the form term:suffix for a term which only json-ld-1.0 treats as a prefix.
+func c10ModeSensitive(v *jv, nonPrefix map[string]bool) bool {
+	chk := func(s string) bool {
+		if i := strings.Index(s, ":"); i > 0 {
+			return nonPrefix[s[:i]]
+		}
+		return false
+	}
+	if v.k == 's' && chk(v.s) {
+		return true
+	}
+	for _, c := range v.a {
+		if c10ModeSensitive(c, nonPrefix) {
+			return true
+		}
+	}
+	for i, c := range v.vals {
+		if chk(v.keys[i]) || c10ModeSensitive(c, nonPrefix) {
+			return true
+		}
+	}
+	return false
 }
